@@ -42,6 +42,10 @@ var tables = map[string][]string{
 
 const valBase = 16 // spec: Val(b, a) = 16*b + a
 
+// Every trace talks about the same 8 addresses (the trace spec's address set is one constant per TLC run);
+// a behaviour of a smaller configuration simply never touches the rest, which do not exist on disk.
+const nAddr = 8
+
 type sys struct {
 	table  string
 	addrs  []common.Address // index a-1
@@ -117,9 +121,10 @@ func variant(hex40 string, k int) string {
 // The Restart ACTION always really closes and reopens the database.
 func (s *sys) reset(sv []int) engine.Fields {
 	tab, ok := tables[s.table]
-	if !ok || len(sv) > len(tab) {
+	if !ok || len(tab) != nAddr || len(sv) > nAddr {
 		engine.Failf("address table %q has no %d addresses", s.table, len(sv))
 	}
+	sv = append(append([]int{}, sv...), make([]int, nAddr-len(sv))...)
 	s.hist++
 	s.addrs = s.addrs[:0]
 	hexes := []string{}
